@@ -388,34 +388,41 @@ theorem raop_step_safe (h : RoundingLaws rnd) {s : Raop} (hs : RaopInv s) (op : 
     have he : Raop.step rnd s (.reportOther x) = (s, []) := rfl
     rw [he]
     exact ⟨hs, fun ev hev => by cases hev⟩
-  | streamStart init =>
+  | streamStart init accepts =>
     obtain ⟨v, hv, hvr⟩ := raop_volume_good h hs
+    -- the "else" branch: set now, or deferred into send_audio
     have helse : (match Raop.volume rnd s with
         | .error e => (s, [Ev.raised e])
-        | .ok v => Raop.setVolume rnd s v) = Raop.setVolume rnd s v := by rw [hv]
+        | .ok v => if accepts = true then Raop.setVolume rnd s v else Raop.deferred rnd s v) =
+        (if accepts = true then Raop.setVolume rnd s v else Raop.deferred rnd s v) := by rw [hv]
+    have hgood : RaopInv (if accepts = true then Raop.setVolume rnd s v else Raop.deferred rnd s v).1 ∧
+        ∀ ev ∈ (if accepts = true then Raop.setVolume rnd s v else Raop.deferred rnd s v).2, GoodEv GoodDbfs ev := by
+      cases accepts
+      · simpa using raop_after_deferred h hs hvr
+      · simpa using raop_after_set h s hvr
     cases hc : s.ctx with
     | some d =>
-      have he : Raop.step rnd s (.streamStart init) = Raop.setVolume rnd s v := by
+      have he : Raop.step rnd s (.streamStart init accepts) =
+          (if accepts = true then Raop.setVolume rnd s v else Raop.deferred rnd s v) := by
         simp only [Raop.step, hc]; exact helse
-      rw [he]
-      exact raop_after_set h s hvr
+      rw [he]; exact hgood
     | none =>
       cases init with
       | none =>
-        have he : Raop.step rnd s (.streamStart none) = Raop.setVolume rnd s v := by
+        have he : Raop.step rnd s (.streamStart none accepts) =
+            (if accepts = true then Raop.setVolume rnd s v else Raop.deferred rnd s v) := by
           simp only [Raop.step, hc]; exact helse
-        rw [he]
-        exact raop_after_set h s hvr
+        rw [he]; exact hgood
       | some iv =>
         by_cases hiv : FVal.le iv (.fin dbfsMax) = true
-        · have he : Raop.step rnd s (.streamStart (some iv)) = (⟨some iv⟩, []) := by
+        · have he : Raop.step rnd s (.streamStart (some iv) accepts) = (⟨some iv⟩, []) := by
             simp only [Raop.step, hc, hiv, if_true]
           rw [he]
           refine ⟨?_, fun ev hev => by cases hev⟩
           intro d' hd'; cases hd'
           rw [dbfsMax_eq] at hiv
           exact hiv
-        · have he : Raop.step rnd s (.streamStart (some iv)) = (s, [.raised .protocol]) := by
+        · have he : Raop.step rnd s (.streamStart (some iv) accepts) = (s, [.raised .protocol]) := by
             simp only [Raop.step, hc, hiv]; rfl
           rw [he]
           exact ⟨hs, single _ rfl⟩
@@ -481,8 +488,9 @@ example : (Raop.run id Raop.init [.set (.fin (100 / 3)), .read]).getLast? = some
 
 /-- once a level is stored (any successful set / step / accepted report), a stream start
     ignores whatever `initialVolume` the receiver advertises -/
-theorem stream_start_ignores_receiver_level_once_set (s : Raop) (hs : s.ctx ≠ none) (init : Option FVal) :
-    Raop.step rnd s (.streamStart init) = Raop.step rnd s (.streamStart none) := by
+theorem stream_start_ignores_receiver_level_once_set (s : Raop) (hs : s.ctx ≠ none) (init : Option FVal)
+    (accepts : Bool) :
+    Raop.step rnd s (.streamStart init accepts) = Raop.step rnd s (.streamStart none accepts) := by
   cases hc : s.ctx with
   | none => exact absurd hc hs
   | some d => simp only [Raop.step, hc]
@@ -492,7 +500,7 @@ theorem stream_start_ignores_receiver_level_once_set (s : Raop) (hs : s.ctx ≠ 
     to the receiver and `audio.volume` still returns it afterwards -/
 theorem stream_start_keeps_user_level (s : Raop) (init : Option FVal) {p : Rat} (h0 : 0 ≤ p) (h1 : p ≤ 100) :
     ∃ d, pctToDbfs id p = .ok d ∧
-      Raop.run id s [.set (.fin p), .streamStart init, .read] =
+      Raop.run id s [.set (.fin p), .streamStart init true, .read] =
         [[.recv (.fin p), .wire (.fin d), .disp (.fin p)],
          [.recv (.fin p), .wire (.fin d), .disp (.fin p)],
          [.ret (.fin p)]] := by
@@ -509,15 +517,47 @@ theorem stream_start_keeps_user_level (s : Raop) (init : Option FVal) {p : Rat} 
   cases init <;> simp [Raop.run, Raop.step, hf, Raop.setVolume, hdF, Raop.volume, hpF, hfr]
 
 example : ∃ d, pctToDbfs id 100 = .ok d ∧
-    Raop.run id Raop.init [.set (.fin 100), .streamStart (some (.fin (-15))), .read] =
+    Raop.run id Raop.init [.set (.fin 100), .streamStart (some (.fin (-15))) true, .read] =
       [[.recv (.fin 100), .wire (.fin d), .disp (.fin 100)], [.recv (.fin 100), .wire (.fin d), .disp (.fin 100)],
        [.ret (.fin 100)]] := stream_start_keeps_user_level _ _ (by norm_num) (le_refl _)
 
+/-- the same against a receiver that rejects the level before RECORD (the deferred
+    hand-over inside `send_audio`): every level offered to the receiver — rejected or
+    accepted — is the conversion of the level the user set, and `audio.volume` still returns
+    that level afterwards (also for 0, which `if volume:` never re-sends: the stored -144
+    stays) -/
+theorem stream_start_deferred_keeps_user_level (s : Raop) (init : Option FVal) {p : Rat} (h0 : 0 ≤ p) (h1 : p ≤ 100) :
+    ∃ d, pctToDbfs id p = .ok d ∧
+      Raop.run id s [.set (.fin p), .streamStart init false, .read] =
+        [[.recv (.fin p), .wire (.fin d), .disp (.fin p)],
+         if p = 0 then [.recv (.fin p), .tried (.fin d)] else [.recv (.fin p), .tried (.fin d), .late (.fin d)],
+         [.ret (.fin p)]] := by
+  have hx : InPct (.fin p) := ⟨p, rfl, h0, h1⟩
+  have hf : facadeSet (.fin p) = .ok (.fin p) := (facade_set_forwards_iff _ _).mpr ⟨rfl, hx⟩
+  have hfr : facadeRead (.fin p) = .ok (.fin p) := (facade_read_returns_iff _ _).mpr ⟨rfl, hx⟩
+  obtain ⟨d, hd⟩ := pctToDbfs_ok roundingLaws_id h0 h1
+  have hrt := roundtrip_pct h0 h1
+  rw [hd] at hrt
+  have hrt' : dbfsToPct id d = .ok p := hrt
+  have hdF : pctToDbfsF id (.fin p) = .ok (.fin d) := by rw [pctToDbfsF_fin, hd]; rfl
+  have hpF : dbfsToPctF id (.fin d) = .ok (.fin p) := by rw [dbfsToPctF_fin, hrt']; rfl
+  refine ⟨d, hd, ?_⟩
+  by_cases hp : p = 0
+  · subst hp
+    cases init <;>
+      simp [Raop.run, Raop.step, hf, Raop.setVolume, hdF, Raop.volume, hpF, hfr, Raop.deferred, truthyF]
+  · cases init <;>
+      simp [Raop.run, Raop.step, hf, Raop.setVolume, hdF, Raop.volume, hpF, hfr, Raop.deferred, truthyF, hp]
+
+example : Raop.run id Raop.init [.streamStart none false, .read] =
+    [[.recv (.fin 33), .tried (.fin (-201 / 10)), .late (.fin (-201 / 10))], [.ret (.fin 33)]] := by decide +kernel
+
 /-- without a stored level the receiver's advertised level is adopted iff it is at most
     0 dBFS; anything else (positive, NaN, +inf) raises ProtocolError and stores nothing -/
-theorem stream_start_adopts_iff (iv : FVal) :
-    (FVal.le iv (.fin 0) = true → Raop.step rnd Raop.init (.streamStart (some iv)) = (⟨some iv⟩, [])) ∧
-    (FVal.le iv (.fin 0) = false → Raop.step rnd Raop.init (.streamStart (some iv)) = (Raop.init, [.raised .protocol])) := by
+theorem stream_start_adopts_iff (iv : FVal) (accepts : Bool) :
+    (FVal.le iv (.fin 0) = true → Raop.step rnd Raop.init (.streamStart (some iv) accepts) = (⟨some iv⟩, [])) ∧
+    (FVal.le iv (.fin 0) = false →
+      Raop.step rnd Raop.init (.streamStart (some iv) accepts) = (Raop.init, [.raised .protocol])) := by
   constructor
   · intro hiv
     simp only [Raop.step, Raop.init, dbfsMax_eq, hiv, if_true]
@@ -525,7 +565,7 @@ theorem stream_start_adopts_iff (iv : FVal) :
     simp only [Raop.step, Raop.init, dbfsMax_eq, hiv]
     rfl
 
-example : (Raop.run id Raop.init [.streamStart (some (.fin (-15))), .read, .streamStart (some (.fin 5))]) =
+example : (Raop.run id Raop.init [.streamStart (some (.fin (-15))) true, .read, .streamStart (some (.fin 5)) true]) =
     [[], [.ret (.fin 50)], [.recv (.fin 50), .wire (.fin (-15)), .disp (.fin 50)]] := by decide +kernel
 
 /-! ## whole histories: facade over MrpAudio (absolute volume control) -/
@@ -607,7 +647,7 @@ theorem mrp_step_safe (h : RoundingLaws rnd) (s : Mrp) (op : Op) :
     intro ev hev
     simp only [Mrp.step] at hev
     cases hev
-  | streamStart x =>
+  | streamStart x a =>
     intro ev hev
     simp only [Mrp.step] at hev
     cases hev
